@@ -48,7 +48,7 @@ Judge ==
          model == ModelOf("as_is", c)
          fails == SessionFailures(c, o)
      IN PrintT("VERDICT " \o ToJson([id    |-> t.id,
-                                     wellformed |-> ScenarioOK(ScOf(t), 3, 3),
+                                     wellformed |-> ScenarioOK(ScOf(t), 4, 3),
                                      fails |-> SetToSeq(fails),
                                      model_fails |-> SetToSeq(SessionFailures(c, model)),
                                      drift |-> ProjectSession(c, o) # ProjectSession(c, model),
